@@ -3,6 +3,7 @@ import re
 
 from driver.common import Case, dd_chunks
 from driver import fmtgen as G
+from driver import utf8gen as U
 
 ID = "C03"
 TIMEOUT = 3.0           # per-op watchdog; inputs are < 1 kB, a parse takes microseconds
@@ -51,7 +52,9 @@ REQUIRED_THEOREMS = ["Gv.Props.C03." + n for n in [
     "phylip_multi_counts", "phylip_outcome_full", "phylip_multi_outcome",
     # Nexus: counts of the DIMENSIONS commands / TAXA block as the parser read them (Proofs/NexusHeader.lean)
     "nexus_counts_as_read", "nexus_header_consistent_partial", "nexus_endblock_ends_block", "nexus_counterexample_nested_begin",
-    "nexus_counterexample_empty_command", "nexus_counterexample_second_data_block"]]
+    "nexus_counterexample_empty_command", "nexus_counterexample_second_data_block",
+    # the raw input, ALL byte strings (rune reader model Model/Fmt/Utf8.lean, Proofs/Utf8Norm.lean)
+    "fasta_parseBytes_ascii", "fasta_outcome_bytes_partial", "fasta_outcome_bytes"]]
 TRUSTED = ["bufio.Reader / UTF-8 rune decoding (inputs with bytes >= 128 are judged by the predicate only)",
            "python watchdog: hang = no answer within TIMEOUT",
            "tools/extract/fmtfacts.go: recognises the proposed guards syntactically; the models are parametric in these facts"]
@@ -606,6 +609,8 @@ def gen(rng, tier):
         for c in range(0, len(data), step):
             yield Case("parsemulti", ["0,%d,2" % rng.randint(0, 2), G.hx(data[:c])], True, "multi:truncate")
     yield from partition_cases(rng, tier)
+    # bytes >= 128: the lexers read runes (Model/Fmt/Utf8.lean); strata of driver/utf8gen.py
+    yield from U.cases(rng, tier, sd, popts_all, popts_default, token_boundaries)
 
 
 # ---- shrinking: bytes ----------------------------------------------------------------------------------
